@@ -59,6 +59,10 @@ CLAIMED = {
  'C02': ('exploration', 'in-line monitor at the finish notification: independent WARC reader over the job files joined with the origin log through archiver hook events (responses received per seed and URL); byte identity by SHA-1 and length; configuration matrix',
          'At the instant a seed is about to be acknowledged to the queue, every response the archiver received for it and the discard policy accepts must be visible in the WARC files as request + response/revisit records for exactly that URL with the payload the origin sent; rejected responses must be absent; every gzip member must hold exactly one well-formed record.',
          'Synchronous WARC mode; bodies/encodings/framings/statuses sampled by a generator around the sniff, dedupe and spool thresholds; origin and crawler in one process on loopback.', '4/C02'),
+
+ 'C03': ('fault_enumeration', 'stop injection at trigger points of the hook event stream x configuration matrix, one child process per run; parent-side exit/stderr/file oracle with the independent WARC reader; in-child structural-quiescence (stuck) detector with goroutine frames',
+         'Every run stops the real pipeline (controler.Stop or a real SIGTERM through WatchSignals) at a moment defined by the k-th occurrence of a pipeline event, including with some/all workers paused; the process must exit 0 without panic, leave no .open file and only complete records, and must not become quiescent with the stop outstanding.',
+         'Moments and configurations are enumerated from a fixed list (quick samples the 64-point matrix, thorough covers it); origin delays bounded so that 20 s after the request only timers remain; HQ source not in this matrix.', '4/C03'),
 }
 NOT_BUILT = 'check not built yet in this session (planned, see DESIGN.md section 4)'
 
